@@ -276,6 +276,7 @@ class Ctx:
         self.notes = []
         self._feas_cache = {}
         self.base_len = 0
+        self.deadline = None          # wall-clock end of the exploration job this path belongs to
 
     # -- fresh symbols
     def fresh_name(self, base):
@@ -356,6 +357,10 @@ class Ctx:
             self.pos += 1
             self.pc.append(e if d else z3.Not(e))
             return d
+        if self.deadline is not None:
+            import time as _time
+            if _time.time() > self.deadline:
+                raise Undecided("exploration time budget of one job exceeded inside a path (PYVC_JOB_BUDGET_S)")
         can_t = self._feasible(e)
         can_f = self._feasible(z3.Not(e)) if can_t else True
         if can_t and can_f:
@@ -500,6 +505,7 @@ def explore(theory, run, stats=None, timeout_ms=10000, seed=0, open_findings=(),
             raise Undecided("exploration time budget of one job exceeded (PYVC_JOB_BUDGET_S)")
         trace = queue.pop()
         ctx = Ctx(theory, trace, stats, timeout_ms=timeout_ms, seed=seed, open_findings=open_findings)
+        ctx.deadline = deadline
         try:
             outcome = run(ctx)
         except PathInfeasible:
